@@ -223,6 +223,9 @@ func (r *Run) Violation(key, what, kind string, cs any) {
 		raw, _ = json.Marshal(fmt.Sprintf("%v", cs))
 	}
 	dir := filepath.Join(Root(), "replays", r.Prop)
+	if d := os.Getenv("VERIF_SCRATCH_OUT"); d != "" {
+		dir = filepath.Join(d, "replays", r.Prop)
+	}
 	_ = os.MkdirAll(dir, 0o755)
 	p := filepath.Join(dir, fmt.Sprintf("%s-s%d-%02d-%s.json", r.Tier, r.Seed, r.replayN, sanitize(key)))
 	b, _ := json.MarshalIndent(Replay{Property: r.Prop, Kind: kind, Key: key, What: what, Tier: r.Tier, Seed: r.Seed, Case: raw}, "", " ")
@@ -344,6 +347,10 @@ func (r *Run) Finish() {
 		os.Exit(2)
 	}
 	dir := filepath.Join(Root(), "evidence")
+	if d := os.Getenv("VERIF_SCRATCH_OUT"); d != "" {
+		// validation runs against scratch copies must not overwrite the evidence of the real tree
+		dir = filepath.Join(d, "evidence")
+	}
 	_ = os.MkdirAll(dir, 0o755)
 	if err := os.WriteFile(filepath.Join(dir, r.Prop+".json"), append(b, '\n'), 0o644); err != nil {
 		fmt.Printf("BROKEN-CHECK property=%s cannot write evidence: %v\n", r.Prop, err)
